@@ -674,6 +674,7 @@ def desc_probe(payload):
                         'out_start': [str(o.starting_channel) if isinstance(o.starting_channel, str) else fmt_frac(o.starting_channel)
                                       for o in desc.outputs],
                         'outs': [[o.rate, o.channels, o.type.__name__] for o in desc.outputs],
+                        'has_gate': bool(desc.has_gate),
                         'ins': [[i.rate, i.channels, str(i.starting_channel) if isinstance(i.starting_channel, str) else fmt_frac(i.starting_channel),
                                  i.type.__name__] for i in desc.inputs],
                         'desc': {n: [c.index, c.rate, ([fmt_frac(v) for v in c.default_value] if isinstance(c.default_value, list) else fmt_frac(c.default_value))]
@@ -1052,4 +1053,125 @@ def invalid_sweep(payload):
                                   for i in u.inputs)
                     if carries:
                         res.append([name, ctor, k, params[k].name, kind])
+    return res
+
+
+def rate_constraint_probe(payload):
+    """C02, invalid graphs: for every unit class and every positional constructor argument, the
+    argument is given a signal of the OTHER rate (a control-rate signal to `.ar`, an audio-rate signal
+    to `.kr`), everything else keeps its default (or gets a signal of the unit's own rate).  Returns
+    which forms are rejected; the check compares with the committed reference of forms that must be."""
+    _init(payload.get('mode', 'nrt'))
+    from sc3.synth import ugen as ugn
+    from sc3.base import main as _libsc3
+    from sc3.synth.synthdef import SynthDef
+    from sc3.synth.ugens.noise import WhiteNoise
+    from sc3.synth.ugens.inout import Out
+    table = _class_table()
+    res = []
+    for name in sorted(table):
+        modname = table[name][2]
+        mod = ugn if modname == 'ugen' else importlib.import_module('sc3.synth.ugens.' + modname)
+        cls = getattr(mod, name)
+        if not issubclass(cls, ugn.UGen) or name in ('OutputProxy',):
+            continue
+        for ctor, other in (('ar', 'kr'), ('kr', 'ar')):
+            fn = getattr(cls, ctor, None)
+            if fn is None:
+                continue
+            try:
+                params = [p for p in inspect.signature(fn).parameters.values()
+                          if p.kind in (p.POSITIONAL_ONLY, p.POSITIONAL_OR_KEYWORD)]
+            except (TypeError, ValueError):
+                continue
+            if not params or len(params) > 12:
+                continue
+            for k in range(len(params)):
+                st = {}
+
+                def f():
+                    args = []
+                    for j, p in enumerate(params):
+                        if j == k:
+                            args.append(getattr(WhiteNoise, other)())
+                        elif p.default is not p.empty:
+                            args.append(p.default)
+                        else:
+                            args.append(getattr(WhiteNoise, ctor)())
+                    n0 = len(_libsc3.main._current_synthdef._children)
+                    x = fn(*args)
+                    st['made'] = [c for c in _libsc3.main._current_synthdef._children[n0:] if type(c).__name__ == name]
+                    y = x[0] if isinstance(x, list) and x else x
+                    if isinstance(y, ugn.UGen) and y.rate in ('audio', 'control'):
+                        (Out.ar if y.rate == 'audio' else Out.kr)(0, y)
+                try:
+                    sd = SynthDef('rc', f)
+                    bytes(sd.as_bytes())
+                    kids = list(sd._children)
+                    if st.get('made') and any(c is q for c in st['made'] for q in kids):
+                        res.append([name, ctor, k, 'compiled'])
+                except Exception as ex:
+                    if st.get('made') is not None:
+                        res.append([name, ctor, k, 'rejected', f'{type(ex).__name__}: {ex}'[:120]])
+    return res
+
+
+def mix_probe(payload):
+    """C01 for the mixing pseudo unit: `Mix.new` of n distinct noise sources (flat list, n = 1..40) is
+    one signal whose value is the sum of all n sources (the emitted + / Sum3 / Sum4 / MulAdd units are
+    evaluated over Q with a distinct value per source), every source appears exactly once; and infinite
+    constants are accepted as operands."""
+    _init(payload.get('mode', 'nrt'))
+    from sc3.synth.synthdef import SynthDef
+    from sc3.synth.ugens.noise import WhiteNoise
+    from sc3.synth.ugens.inout import Out
+    from sc3.synth.ugens.mix import Mix
+    res = []
+    for n in payload.get('sizes', list(range(1, 41))):
+        def f():
+            Out.ar(0, Mix.new([WhiteNoise.ar() for _ in range(n)]))
+        try:
+            sd = SynthDef('mx', f)
+            d = scgf.parse(bytes(sd.as_bytes()))[0]
+        except Exception as ex:
+            res.append([n, f'EXC {type(ex).__name__}: {ex}'[:120]])
+            continue
+        vals, k = [], 0
+        ok = None
+        for u in d['ugens']:
+            def iv(spec):
+                a, j = spec
+                return F(d['consts'][j]) if a < 0 else vals[a][j]
+            ins = [iv(s) for s in u['ins']]
+            c = u['cls']
+            if c == 'WhiteNoise':
+                k += 1
+                vals.append([F(1, 1) * (1000003 ** (k % 5)) + k * k])     # distinct values
+            elif c == 'BinaryOpUGen' and u['sp'] == 0:
+                vals.append([ins[0] + ins[1]])
+            elif c == 'Sum3':
+                vals.append([ins[0] + ins[1] + ins[2]])
+            elif c == 'Sum4':
+                vals.append([ins[0] + ins[1] + ins[2] + ins[3]])
+            elif c == 'MulAdd':
+                vals.append([ins[0] * ins[1] + ins[2]])
+            elif c == 'Out':
+                want = sum((F(1, 1) * (1000003 ** (i % 5)) + i * i for i in range(1, n + 1)), F(0))
+                ok = (len(ins) == 2 and ins[1] == want and k == n)
+                vals.append([])
+            else:
+                vals.append([F(0)] * max(1, len(u['outs'])))
+        res.append([n, 'ok' if ok else f'sum of {n} sources not delivered: {k} sources, {[u["cls"] for u in d["ugens"]]}'[:200]])
+    # infinite constants as operands
+    inf = float('inf')
+    from sc3.synth.ugens.line import Line
+    forms = {'min_inf': lambda x: x.min(inf), 'mul_neg_inf': lambda x: x * -inf, 'line_dur_inf': lambda x: x * Line.kr(0, 1, inf)}
+    for name, fn in forms.items():
+        def g():
+            Out.ar(0, fn(WhiteNoise.ar()))
+        try:
+            d = scgf.parse(bytes(SynthDef('inf', g).as_bytes()))[0]
+            res.append([name, 'ok' if any(math.isinf(c) for c in d['consts']) else 'no infinite constant in the definition'])
+        except Exception as ex:
+            res.append([name, f'EXC {type(ex).__name__}: {ex}'[:120]])
     return res
